@@ -1,6 +1,7 @@
 package props
 
 import (
+	"io"
 	"log/slog"
 	"context"
 	"errors"
@@ -62,6 +63,21 @@ func panicValues() []struct {
 		{"conn-reset-by-message", &net.OpError{Op: "read", Net: "tcp", Err: &os.SyscallError{Syscall: "read", Err: fmt.Errorf("tls record: %w", errors.New("connection reset by peer"))}}, false, true},
 		{"conn-reset-nested-operror", &net.OpError{Op: "write", Net: "tcp", Err: &net.OpError{Op: "write", Net: "tcp", Err: &os.SyscallError{Syscall: "write", Err: syscall.ECONNRESET}}}, false, true},
 	}
+}
+
+// panickingSource yields one chunk, then calls then (which panics) on the next Read.
+type panickingSource struct {
+	chunk string
+	then  func()
+	done  bool
+}
+
+func (p *panickingSource) Read(b []byte) (int, error) {
+	if p.done {
+		p.then()
+	}
+	p.done = true
+	return copy(b, p.chunk), nil
 }
 
 var secretNames = []string{"Authorization", "Proxy-Authorization", "Cookie", "Set-Cookie", "X-CSRF-Token", "X-Vault-Token"}
@@ -242,7 +258,9 @@ func runC15(src sim.Source, o Opts) *Result {
 		{Name: "no-method-handler", Method: "PURGE", Path: path, Kind: model.KNoMethod},
 		{Name: "options-handler", Method: "OPTIONS", Path: path, Kind: model.KOptions},
 	}
-	progress := []string{"nothing", "header", "partial", "failed-write"}
+	// "copy-source-panics": the handler streams a source into the writer (io.Copy -> ReadFrom); the source delivers one
+	// chunk and then panics with the value - the response has started by then
+	progress := []string{"nothing", "header", "partial", "failed-write", "copy-source-panics"}
 	{
 		// keep only the sites whose request really reaches the intended handler kind for this route set
 		mcfg := w.ModelCfg()
@@ -330,6 +348,12 @@ func runC15(src sim.Source, o Opts) *Result {
 					case "failed-write":
 						_, _ = c.Writer().Write([]byte("partial"))
 						wroteSomething = true
+					case "copy-source-panics":
+						wroteSomething = true
+						_, _ = io.Copy(c.Writer(), &panickingSource{chunk: "first-chunk;", then: func() {
+							eventsAtPanic = len(conn.Events)
+							panic(pv.V)
+						}})
 					}
 					eventsAtPanic = len(conn.Events)
 					panic(pv.V)
